@@ -53,17 +53,37 @@ theorem mapStored_eq_mapSelf (pick : Pick) (text : List Byte) (chunks : List (Li
     mapStored pick text (some bytes) = mapSelf pick text := by
   have h1 : index pick [text] = .ok bytes := by
     rw [← hflat, ← index_chunk_independent]; exact hidx
-  rw [mapSelf_eq]
   unfold mapStored
   by_cases hm : (tag tMODULE_ text).isNone = true
-  · simp [hm]
-  · simp only [hm, Bool.false_eq_true, if_false, Option.bind_some, h1]
+  · rw [mapSelf_eq]; simp [hm]
+  · simp only [hm, Bool.false_eq_true, if_false, Option.bind_some]
     cases hp : parseSymindex bytes with
-    | some ix => rfl
-    | none =>
+    | none => rfl
+    | some ix =>
       simp only
-      rw [mapSelf_eq]
-      simp [hm, h1, hp]
+      split
+      · -- accepted: the self-indexing map parses the same bytes
+        rw [mapSelf_eq]
+        simp [hm, h1, hp]
+      · rfl
+
+/-- a stored index that parses but whose MODULE line is not the beginning of the text is ignored -/
+theorem mapStored_mismatch (pick : Pick) (text b : List Byte) (ix : Index)
+    (hp : parseSymindex b = some ix) (hm : storedMatches text ix = false) :
+    mapStored pick text (some b) = mapSelf pick text := by
+  unfold mapStored
+  by_cases ht : (tag tMODULE_ text).isNone = true
+  · unfold mapSelf; simp [ht]
+  · simp [ht, hp, hm]
+
+theorem storedMatches_iff (text : List Byte) (ix : Index) :
+    storedMatches text ix = true ↔ storedModuleLine ix ≠ [] ∧ storedModuleLine ix <+: text := by
+  unfold storedMatches
+  simp only [Bool.and_eq_true, Bool.not_eq_true', List.isEmpty_eq_false_iff, beq_iff_eq]
+  rw [List.prefix_iff_eq_take]
+  constructor
+  · rintro ⟨h1, h2⟩; exact ⟨h1, h2.symm⟩
+  · rintro ⟨h1, h2⟩; exact ⟨h1, h2.symm⟩
 
 /-- what `index` yields in terms of the creator's final state -/
 theorem index_spec (pick : Pick) (chunks : List (List Byte)) :
